@@ -118,6 +118,15 @@ def gen_case(r):
                         s0["name"] = nm + "_root"
         else:
             unrooted.append(me)
+    # directed: two UNROOTED nodes that share a name (e.g. two Arrays left at a default name), later passed in one list: the
+    # writer's temporary `root_savedlist` cannot hold both under that name; whatever it does about it, the caller's nodes
+    # keep their names
+    dup = len(unrooted) >= 2 and r.random() < 0.3
+    if dup:
+        a, b = unrooted[0], unrooted[1]
+        for s0 in steps:
+            if s0.get("name") == f"n{b}" and s0["do"] in ("node", "array", "pointlist"):
+                s0["name"] = f"n{a}"
     bad = r.random() < 0.2
     for _ in range(r.choice([0, 1, 2, 3])):
         x = r.choice(rooted + unrooted)
@@ -155,6 +164,11 @@ def gen_case(r):
                 items.append({"k": "loose", "i": i})
         r.shuffle(items)
         inp = {"k": r.choice(["list", "list", "tuple"]), "items": items}
+    if dup:
+        items = [{"k": "node", "id": x} for x in unrooted] + [{"k": "loose", "i": i} for i, l in enumerate(loose)
+                                                               if l["k"] != "metadata" and r.random() < 0.5]
+        r.shuffle(items)
+        inp = {"k": r.choice(["list", "tuple"]), "items": items}
     case = {"forest": steps, "loose": loose, "input": inp, "mode": r.choice(["w", "w", "o", "a", "ao"]),
             "tree": r.choice([True, True, False, None]), "existing": r.random() < 0.3}
     # directed: a SINGLE unrooted node whose save fails late (after the writer has given it its temporary root): an
